@@ -416,7 +416,7 @@ def loop_depth(body, bb, loops=None):
     return len(heads)
 
 
-def bool_sim(body, atom_value, max_states=20000):
+def bool_sim(body, atom_value, max_states=20000, start=0, env0=None):
     """Which blocks can be reached when the comparison statements listed in `atom_value` ({(block, statement index): bool}, or
     {("call", block): bool} for the result of a boolean call) have the given outcomes?  A tiny path-sensitive interpreter over the boolean part of the MIR: it tracks locals holding known
     booleans through copies, `!`, `&` / `|` and the control flow of `&&` / `||`, follows a `switchInt` whose operand is known
@@ -424,7 +424,7 @@ def bool_sim(body, atom_value, max_states=20000):
     blocks = body.blocks
     reached = set()
     seen = set()
-    work = [(0, ())]
+    work = [(start, tuple(sorted((env0 or {}).items())))]
     n = 0
     while work and n < max_states:
         n += 1
